@@ -49,7 +49,17 @@ def stringify_blank_node(
     def stringify_list(node: rdflib.BNode) -> str:
         nonlocal graph, ns_manager, recursion
         item_texts: List[str] = []
-        for item in iter(graph.items(node)):
+        seen = set()
+        list_node: Optional[RDFNode] = node
+        members: List[RDFNode] = []
+        # a list whose rdf:rest chain loops back into itself ends where it would start to repeat
+        while list_node is not None and list_node not in seen:
+            seen.add(list_node)
+            member = graph.value(list_node, RDF_first)
+            if member is not None:
+                members.append(member)
+            list_node = graph.value(list_node, rdflib.RDF.rest)
+        for item in members:
             item_text = stringify_node(graph, item, ns_manager=ns_manager, recursion=recursion + 1)
             item_texts.append(item_text)
         # item_texts.sort()  ## Don't sort, to preserve list order
